@@ -77,6 +77,41 @@ def run(rec):
                                       lambda: psi.expectation_value_terms_sum(TermList(terms, strengths)), inp)
                 if ok:
                     rec.check(abs(res[0] - exp) < tol, 'expectation_value_terms_sum:value', f'{res[0]} vs {exp}', inp)
+                # term lists with (fermionic) factors in any site order; a list, its translate and a second evaluation must all
+                # give the dense value, and the list handed in is left as it was
+                terms2, strengths2 = [], []
+                # (the sign operators JW, JWu, JWd are string operators, not factors of physical terms: separate case below)
+                cand_all = sorted(n for n in s0.opnames if n != 'Id' and not n.startswith('JW') and s0.get_hc_op_name(n) in s0.opnames)
+                for _ in range(4):
+                    if L < 2 or not cand_all:
+                        break
+                    i, j = rng.choice(L, size=2, replace=False).tolist()          # any order
+                    a_ = str(rng.choice(cand_all))
+                    terms2.append([(a_, int(i)), (s0.get_hc_op_name(a_), int(j))])
+                    strengths2.append(float(rng.standard_normal()))
+                if terms2:
+                    exp2 = sum(st * mpsgen.expect_dense(v, sites, t) for st, t in zip(strengths2, terms2))
+                    tl = TermList(terms2, strengths2)
+                    inp2 = dict(inp, terms=terms2, strengths=strengths2)
+                    for label, make in (('translate', lambda: tl.shift(0)), ('first', lambda: tl), ('second', lambda: tl)):
+                        ok, res = rec.guarded(f'expectation_value_terms_sum({label}):exception',
+                                              lambda: psi.expectation_value_terms_sum(make()), inp2)
+                        if ok:
+                            rec.check(abs(res[0] - exp2) < tol, f'expectation_value_terms_sum({label} evaluation):value',
+                                      f'{res[0]} vs dense {exp2}', inp2)
+                    # the list may have been reordered in place (order_combine), but it must still denote the same operator
+                    now = sum(st * mpsgen.expect_dense(v, sites, [(str(o), int(i)) for o, i in t]) for st, t in zip(tl.strength, tl.terms))
+                    rec.check(abs(now - exp2) < tol, 'expectation_value_terms_sum:argument-denotes-another-operator',
+                              f'after the evaluations the list evaluates (densely) to {now}, before {exp2}', inp2)
+                # sign operators used as factors, out of site order: the two MPS routines must at least agree with each other
+                if L >= 3 and 'JW' in s0.opnames and s0.op_needs_JW('JW') and any(s0.op_needs_JW(n) for n in s0.opnames if not n.startswith('JW')):
+                    t_jw = [('JW', 2), ('JW', 0)]
+                    ok1, e1 = rec.guarded('expectation_value_term(JW factors):exception', lambda: psi.expectation_value_term(t_jw), inp)
+                    ok2, e2 = rec.guarded('expectation_value_terms_sum(JW factors):exception',
+                                          lambda: psi.expectation_value_terms_sum(TermList([t_jw], [1.]))[0], inp)
+                    if ok1 and ok2:
+                        rec.check(abs(e1 - e2) < tol, 'expectation_value_terms_sum(JW-type factors out of site order):sign',
+                                  f'expectation_value_term {e1} (= dense {mpsgen.expect_dense(v, sites, t_jw)}), terms_sum {e2}', dict(inp, term=t_jw))
                 # --- correlation functions (all pairs of sites, incl. i>j and i=j); fermionic pairs with JW
                 pairs = []
                 cand = sorted(n for n in s0.opnames if n not in ('Id', 'JW'))
